@@ -124,6 +124,13 @@ CHECKS['C08'] = ('simnet', 'fault_enumeration',
     'exit_after (seconds, m:s, @time) ends a processing filter within [T, T + 0.5 s].',
     SIMNET_NOTE + ' Exits are injected at lifecycle points of our own Filter subclass; multi-process Runner not covered.', '5 C08')
 
+CHECKS['C18'] = ('simnet', 'fault_enumeration',
+    'fault injection with a controlled thread schedule: the heartbeat thread runs as a simulator actor (threading shim, virtual time); enumerated matrix of ways to end x run length x emit cost x interval plus Hypothesis-generated cases; regular-language predicate over the captured events',
+    'The real Filter.run and the real OpenFilterLineage (capturing client) for every way a sourceless filter can end (exit() in init/setup/process/shutdown, exit with exception, stop event, '
+    'exception in init/setup/process/shutdown, exit_after), run lengths from 0 to many heartbeat intervals and emit costs that move the heartbeat/main-thread interleaving: events must be '
+    'START RUNNING* (COMPLETE|ABORT), one run id, COMPLETE iff run() returned normally, heartbeat thread stopped.',
+    'interleavings explored at the shim yield points (Event.wait, Lock, emit); propagated exits (need neighbours) are exercised in C08, not here.', '5 C18')
+
 PENDING = {}
 
 
